@@ -239,7 +239,7 @@ class _Agg:
         if v == 'viol':
             self.nviol += 1
             if len(self.viols) < MAX_VIOL_PER_TASK:
-                self.viols.append({'space': space.name, 'case': case, 'signature': r['sig'],
+                self.viols.append({'space': space.name, 'case': case, 'task': getattr(self, 'task', None), 'signature': r['sig'],
                                    'message': r['msg'], 'expected': r.get('expected'),
                                    'observed': r.get('observed')})
         elif r.get('sample') is not None and len(self.samples) < MAX_SAMPLES_PER_TASK:
@@ -259,6 +259,7 @@ def walk_subtree(space, start, seen=None, deadline=None):
     """Breadth-first walk of the sub-tree rooted at ``start`` (the root itself was counted by the
     parent).  Returns an aggregate."""
     agg = _Agg()
+    agg.task = list(start)
     frontier = collections.deque([start])
     if space.is_case(start):
         agg.add_result(space, space.case(start), safe_evaluate(space, space.case(start)))
@@ -308,10 +309,29 @@ def _worker(spaces, tasks, results, stop, slots, slot):
             results.put(('done', tid, si, None))
             continue
         try:
-            agg = walk_subtree(spaces[si], node)
-            results.put(('done', tid, si, agg.dump()))
+            from bcmc.childproc import run_in_child
+            status, res = run_in_child(_task_body, (spaces, si, node), timeout=10 ** 7, new_session=False)
+            if status == 'ok':
+                results.put(('done', tid, si, res))
+            elif status == 'exc':
+                results.put(('done', tid, si, {'fatal': res}))
+            else:
+                os._exit(7)          # the child died: let the parent's watchdog treat it as a crash of this task
         except BaseException as e:      # noqa
             results.put(('done', tid, si, {'fatal': traceback.format_exc()}))
+
+
+def _task_body(spaces, si, node):
+    return walk_subtree(spaces[si], node).dump()
+
+
+def in_fresh_child(fn, *args, timeout=3600):
+    """Run fn(*args) in a forked child of the calling (pristine) process."""
+    from bcmc.childproc import run_in_child
+    status, res = run_in_child(fn, args, timeout=timeout)
+    if status != 'ok':
+        raise RuntimeError('child %s: %s' % (status, str(res)[-800:]))
+    return res
 
 
 def _killpg(pid):
